@@ -398,6 +398,22 @@ def run_check(pid, tier, replay=None):
                                payload=dict(kind="proof", theorem_file=f"coq/theories/Props/{pid}.v", problem=prob),
                                found_input=False))
     cov = {}
+    # watchdog: a check must terminate on broken code too.  A harness that is still running after the limit
+    # (default 30 min quick / 120 min thorough, VERIF_WATCHDOG_S overrides) is interrupted and the run is
+    # reported as a violation without failing input (typically: the changed code waits for something forever).
+    limit = int(os.environ.get("VERIF_WATCHDOG_S", "0") or 0) or (1800 if tier == "quick" else 7200)
+
+    class HarnessTimeout(Exception):
+        pass
+
+    def on_alarm(signum, frame):
+        raise HarnessTimeout(f"correspondence harness still running after {limit} s")
+    try:
+        import signal
+        signal.signal(signal.SIGALRM, on_alarm)
+        signal.alarm(limit)
+    except Exception:
+        pass
     try:
         exe = build_driver(pid)
         mod = importlib.import_module(pid.lower())
@@ -405,10 +421,19 @@ def run_check(pid, tier, replay=None):
         out = mod.run(ctx)
         cov = out.get("coverage", {})
         violations += out.get("violations", [])
+    except HarnessTimeout as e:
+        tb = traceback.format_exc()
+        violations.append(dict(key="harness-did-not-terminate", what=str(e) + " (the implementation under test probably "
+                               "waits forever on some generated case): " + tb[-900:],
+                               payload=dict(kind="harness-timeout", traceback=tb), found_input=False))
     except Exception:
         tb = traceback.format_exc()
         violations.append(dict(key="harness-exception", what="correspondence harness failed: " + tb[-1500:],
                                payload=dict(kind="harness", traceback=tb), found_input=False))
+    try:
+        signal.alarm(0)
+    except Exception:
+        pass
     findings = load_findings(pid)
     known_lines, real = [], []
     seen_keys = set()
